@@ -106,6 +106,15 @@ def rsa_cases(k, r, extra):
     return res
 
 
+# composites that sit just above the limits a primality routine may special-case: products of two primes just above the
+# first 100 / 1000 / 10000 primes and above 2^16 and 2^32, squares of such primes, the classic strong pseudoprimes to
+# the first prime bases, Wieferich squares
+SMALL_COMPOSITES = [547 * 547, 547 * 557, 719 * 727, 7927 * 7933, 7927 * 7927, 104743 * 104759, 104743 * 104743,
+                    65537 * 65539, 65537 * 65537, 4294967311 * 4294967357, 4294967311 * 4294967311,
+                    2047, 3277, 1373653, 25326001, 3215031751, 2152302898747, 3474749660383, 341550071728321,
+                    3825123056546413051, 1093 * 1093, 3511 * 3511]
+
+
 def rsa_special_cases(r, bits, quick):
     """tuples that need their own primes"""
     from ref import primes
@@ -153,6 +162,8 @@ def rsa_special_cases(r, bits, quick):
     with_composite(sp, "strong-pseudoprime-p(2p-1)")
     sq, _ = primes.prime_square(half if half % 2 == 0 else half + 1, r)
     with_composite(sq, "prime-square", swap=True)
+    for comp in r.sample(SMALL_COMPOSITES, 6 if quick else len(SMALL_COMPOSITES)):
+        with_composite(comp, "small-special-composite", swap=r.random() < 0.5)
     # three-prime modulus through the (n, e, d) path: the recovered cofactor is composite
     p1, p2, p3 = (primes.gen_prime(bits // 3, r, lambda c: math.gcd(c - 1, e) == 1) for _ in range(3))
     if len({p1, p2, p3}) == 3:
@@ -326,6 +337,22 @@ def dsa_special_cases(r, L, N):
     x = r.randrange(1, qq)
     out.append(("q-composite-consistent-private", (pow(g, x, p), g, p, qq, x), X, "composite-q", "composite-factor"))
     out.append(("q-composite-consistent-public", (pow(g, x, p), g, p, qq), X, "composite-q", "composite-factor"))
+    # a SMALL composite q (a consistent domain around it: p prime, q | p - 1, g^q = 1)
+    for qq in r.sample(SMALL_COMPOSITES, 3):
+        for _ in range(2000):
+            k = r.getrandbits(L - qq.bit_length()) | (1 << (L - qq.bit_length() - 1))
+            k += k % 2
+            p = k * qq + 1
+            if primes._passes_small(p) and primes.is_prime_bpsw(p):
+                break
+        else:
+            continue
+        g = 1
+        while g == 1:
+            g = pow(r.randrange(2, p - 1), (p - 1) // qq, p)
+        x = r.randrange(1, qq)
+        out.append(("q-small-special-composite-private", (pow(g, x, p), g, p, qq, x), X, "composite-q", "composite-factor"))
+        out.append(("q-small-special-composite-public", (pow(g, x, p), g, p, qq), X, "composite-q", "composite-factor"))
     return out
 
 
@@ -383,6 +410,11 @@ def w_con_elgamal(spec, ctx, H, entropy):
             ("valid/g-is-p-2", (p, p - 2, pow(p - 2, x, p), x), V, None, None),
             ("p-carmichael-private", (car, gc, pow(gc, xc, car), xc), X, "composite-p", "composite-factor"),
             ("p-carmichael-public", (car, gc, pow(gc, xc, car)), X, "composite-p", "composite-factor"),
+        ] + [("p-small-special-composite", (sc, 2, pow(2, 5, sc), 5), X, "composite-p", "composite-factor") for sc in SMALL_COMPOSITES
+             if pow(2, sc - 1, sc) == 1] + [
+            ("p-small-special-composite-public", (sc, gs, pow(gs, 7, sc)), X, "composite-p", "composite-factor")
+            for sc in r.sample(SMALL_COMPOSITES, 5) for gs in [next(gg for gg in range(2, 200) if math.gcd(gg, sc) == 1)]
+        ] + [
             ("p-product-of-two-primes", (a * b, g % (a * b), pow(g % (a * b), x % (a * b), a * b), x % (a * b)), X, "composite-p", "composite-factor"),
             ("p-plus-2", (p + 2, g, pow(g, x, p + 2), x), X if not is_prime(p + 2) else V, "composite-p", "composite-factor"),
             ("p-even", (p + 1, g, pow(g, x, p + 1), x), X, "composite-p", "composite-factor"),
